@@ -78,6 +78,7 @@ PROPS = {
                      "Sqlize.C01.indexes_with_dropped_columns", "Sqlize.Abs.Idx.plan_correct", "Sqlize.Abs.Idx.emitSup_correct", "Sqlize.Abs.Idx.dropCols_idxs",
                      "Sqlize.Table.walkIdx_refines_sup", "Sqlize.Spec.execAll_wf",
                      "Sqlize.C01.equal_column_untouched", "Sqlize.Table.walkCols_about", "Sqlize.Table.diffCols1_unchanged_mem",
+                     "Sqlize.C01.columns_on_reference_engine", "Sqlize.columns_spec_up", "Sqlize.colExecAll_of_abs", "Sqlize.colExecAll_set", "Sqlize.execAll_of_colExecAll", "Sqlize.added_column_def", "Sqlize.Table.walkCols_stmtCols",
                      "Sqlize.C01.changed_column_modified", "Sqlize.perm_of_not_changed", "Sqlize.ckey_inj", "Sqlize.Table.diff_like", "Sqlize.Table.walkCols_modify",
                      "Sqlize.C01.equal_primary_key_untouched", "Sqlize.C01.tables_from_scripts", "Sqlize.Migration.migrate_tbl",
                      "Sqlize.Migration.diffTables2_appends"],
@@ -95,7 +96,9 @@ PROPS = {
                        "old columns are dropped = the recorded finding (indexes_with_dropped_columns); a column with the same type and options (up to order) on both "
                        "sides gets no column statement in either direction (equal_column_untouched, no inline PRIMARY KEY option), and conversely a column whose type or "
                        "options (other than COMMENT) differ gets a MODIFY COLUMN the reference engine reads as the new side's column, the old side's on the way down "
-                       "(changed_column_modified). Not proved: a changed primary key (recorded finding), a COMMENT-only difference, the lift from one table to the whole schema, "
+                       "(changed_column_modified); composed on the reference engine itself: Spec.execAll of the printed ADD / DROP / MODIFY COLUMN statements on the old schema is well-formed at every "
+                       "step, leaves the table with a column list equal to the new side's (names, order, types, options up to order) and every other table untouched "
+                       "(columns_on_reference_engine; no inline PRIMARY KEY, no COMMENT options, common columns in the same relative order). Not proved: a changed primary key (recorded finding), a COMMENT-only difference, the lift from one table to the whole schema, "
                        "other dialects; the full statement Sqlize.C01.Statement(_partial) is decided on "
                        "every run by correspondence (model = code on state and text) plus the "
                        "executable predicate Spec.c01 (reference DDL engine) on the migration text the Go code printed.",
